@@ -66,8 +66,18 @@ func main() {
 		"inter": {"inter", inter, true, false}, "leaf": {"leaf", leaf, false, false},
 		"selfLeaf": {"selfLeaf", selfLeaf, true, false}, "selfIssuedOnly": {"selfIssuedOnly", selfIssuedOnly, true, false},
 	}
+	// a leaf (not CA, not self-signed) whose signature algorithm crypto/x509 can parse but not verify (RSA with SHA3-256):
+	// "cannot check the self-signature" must not be read as "self-signed"
+	rsaLeaf := lib.Mint(rsaRoot, lib.CertSpec{CN: "c13-rsa-leaf", Kind: "codesign", KeySpec: "RSA-2048", KeyIdx: 1})
+	oddDER := bytes.ReplaceAll(rsaLeaf.Cert.Raw, []byte{0x06, 0x09, 0x2A, 0x86, 0x48, 0x86, 0xF7, 0x0D, 0x01, 0x01, 0x0B}, []byte{0x06, 0x09, 0x60, 0x86, 0x48, 0x01, 0x65, 0x03, 0x04, 0x03, 0x0E})
+	if odd, err := x509.ParseCertificate(oddDER); err == nil && !bytes.Equal(oddDER, rsaLeaf.Cert.Raw) {
+		kinds["leafUnverifiableAlg"] = certKind{"leafUnverifiableAlg", &lib.Ent{Cert: odd}, false, false}
+	}
 	goodCA := []string{"root", "root2", "rsaRoot"}
 	allKinds := []string{"root", "root2", "rsaRoot", "inter", "leaf", "selfLeaf", "selfIssuedOnly"}
+	if _, ok := kinds["leafUnverifiableAlg"]; ok {
+		allKinds = append(allKinds, "leafUnverifiableAlg", "leafUnverifiableAlg")
+	}
 
 	types := []struct {
 		s     string
@@ -275,6 +285,24 @@ func main() {
 				r.Violation(map[string]string{"kind": "partial-set-on-failure"}, fmt.Sprintf("GetCertificates failed but returned %d certificates", len(certs)), wit)
 			}
 			return
+		}
+		// the SAME trust store value is asked again: same-named stores of the other types hold only the decoy, and the
+		// first answer must be repeatable (nothing may be remembered under the name alone)
+		if sc.Twin {
+			for _, ot := range []string{"ca", "signingAuthority", "tsa"} {
+				if ot == sc.Type {
+					continue
+				}
+				oc, oerr := ts.GetCertificates(context.Background(), truststore.Type(ot), sc.Name)
+				r.Event("same-store-value-asked-again")
+				if oerr != nil || len(oc) != 1 || !bytes.Equal(oc[0].Raw, decoy.Cert.Raw) {
+					r.Violation(map[string]string{"kind": "returned-set", "shape": "same-name-other-type"}, fmt.Sprintf("after loading %s:%s the same trust store value answered %s:%s with %d certificates (err=%v); that store holds exactly the decoy", sc.Type, sc.Name, ot, sc.Name, len(oc), oerr), wit)
+				}
+			}
+			again, aerr := ts.GetCertificates(context.Background(), truststore.Type(sc.Type), sc.Name)
+			if aerr != nil || len(again) != len(certs) {
+				r.Violation(map[string]string{"kind": "returned-set", "shape": "repeat"}, fmt.Sprintf("a repeated load returned %d certificates (err=%v), the first %d", len(again), aerr, len(certs)), wit)
+			}
 		}
 		var got, w []string
 		for _, c := range certs {
